@@ -91,7 +91,7 @@ def run(ctx):
         "cannot take back (kvs_gets_return_only_durable_values); the locks are taken in strictly ascending order, each key once (lockOrder model tied to kvs.lockOrder by the klockorder lines), "
         "so no set of concurrent puts and gets is deadlocked (concurrent_puts_and_gets_never_deadlock). Correspondence on sequences with overlapping key sets, duplicates, key-range boundaries and transactions of 511/512/600 blocks",
         "sequences of MultiPut (1..64 pairs, overlapping keys, duplicates inside one put; 511, 512 and 600 distinct blocks) and Get over keys at LOGSIZE-1, LOGSIZE, sz-1, sz, "
-        "sz+1, 0, 2^40 and random; every result (value / refused / panic) compared",
+        "sz+1, 0, 2^40 and random, with the store opened again on the same disk now and then (kvs.MkKVS: the values must carry over); every result (value / refused / panic) compared",
         ["values are whole blocks identified by a fill byte and a counter"],
         pending=[],
         partial=["concurrent callers: rounds of 2-4 overlapping MultiPuts (values from a three-letter alphabet, so puts often rewrite what is there) must be explained by some order of the puts applied by the model — sampled schedules, not a theorem", "crash atomicity/durability: theorems of C01 on the WAL model + recorded-trace validation + prefix-state oracle (all pairs of a put or none; acknowledged puts survive) on sampled crash images, recovered by kvs.MkKVS; crash right after a revealing reply: puts of generations 1,2,3,... of one key beside two Get callers on a disk slow on the log header, "
